@@ -267,7 +267,6 @@ Proof.
     + destruct (proj2 (K e He)) as [th' [Ag' [C' L']]]; [exists th; auto|]. exists e, th'. repeat split; assumption.
   - simpl in F. apply gfresh_app in F. destruct F as [_ F]. apply gfresh_app in F. destruct F as [F _].
     rewrite (choice_elems_ok_gweak G G' es I F H T s).
-    rewrite (agg_holds_ext sym_lt s lg FCount rg _ _ (choice_tuples_gweak G G' es I F H T s)).
     rewrite (agg_holds_ext sym_lt s lg FCount rg _ _ (choice_tuples_gweak G G' es I F T T s)). tauto.
   - simpl in F. apply gfresh_app in F. destruct F as [_ F]. apply gfresh_app in F. destruct F as [F _].
     change (gfresh G G' (flat_map helem_vars es)) in F.
@@ -276,7 +275,6 @@ Proof.
       apply in_map_iff in Hc. destruct Hc as [e [<- He]]. apply in_flat_map. exists e. split; [exact He|].
       unfold helem_vars. apply in_app_iff. right. exact Hx. }
     rewrite (choice_elems_ok_gweak G G' (map snd es) I F2 H T s).
-    rewrite (agg_holds_ext sym_lt s lg f rg _ _ (headagg_tuples_gweak G G' es I F H T s)).
     rewrite (agg_holds_ext sym_lt s lg f rg _ _ (headagg_tuples_gweak G G' es I F T T s)). tauto.
   - tauto.
 Qed.
@@ -1547,14 +1545,10 @@ Proof.
   assert (PS: prog_sat H T P').
   { intros st Hst. destruct (Shape st Hst) as [->|[[k [t ->]]|[ln [B ->]]]].
     - apply choice_foo_unfold. intro s. split; intros _; [|exact (HT s)].
-      destruct (HT s) as [_ [_ AT]]. split; [|split; [|exact AT]].
-      + intros e th [<-|[]] _ C. simpl in C. apply lits_sat_one in C. apply at1_var_sat in C. simpl. rewrite !at1_var_sat.
-        destruct (Dec (th "X") (S _ C)) as [Y|N]; [left | right; exact N].
-        split; [exact Y|]. intros v E. injection E as <-. left. apply S. exact C.
-      + revert AT. apply agg_holds_ext. intro tv. rewrite !choice_tuples_foo.
-        split; intros [v [E [Xd Xf]]]; exists v; (split; [exact E|]).
-        * split; apply S; assumption.
-        * split; (split; [assumption|]); intros v' E'; [discriminate E' | injection E' as <-; left; exact Xd].
+      destruct (HT s) as [_ AT]. split; [|exact AT].
+      intros e th [<-|[]] _ C. simpl in C. apply lits_sat_one in C. apply at1_var_sat in C. simpl. rewrite !at1_var_sat.
+      destruct (Dec (th "X") (S _ C)) as [Y|N]; [left | right; exact N].
+      split; [exact Y|]. intros v E. injection E as <-. left. apply S. exact C.
     - exact Logic.I.
     - pose proof (PT _ Hst) as R. unfold Sat.stmt_sat in *. intro s. destruct (R s) as [_ R2]. split; [|exact R2].
       intro F. apply head_a_sat. split; [|intros v E; discriminate E].
@@ -1562,7 +1556,7 @@ Proof.
   assert (FH: facts_sat H I).
   { intros a Ha. split; [apply FT; exact Ha | intros v E; right; exact Ha]. }
   pose proof (Min H S PS FH) as TH.
-  destruct (HT (fun _ => SInf)) as [_ [_ AT]]. destruct AT as [v0 [[lT [[ND En] _]] _]].
+  destruct (HT (fun _ => SInf)) as [_ AT]. destruct AT as [v0 [[lT [[ND En] _]] _]].
   exists (flat_map (fun tv : list sym => match tv with [SFun _ [v] _] => [v] | _ => [] end) lT ++
           flat_map (fun at_ : gatom => match snd at_ with [v] => [v] | _ => [] end) I).
   intros v Tv. destruct (TH _ Tv) as [_ K]. apply in_app_iff. destruct (K v eq_refl) as [Td|Hi].
